@@ -1014,8 +1014,8 @@ func c06ChainDoc(c *kit.Case, rg *kit.Rand, v pdf.Version, human bool, streams [
 	}
 	for _, s := range streams {
 		fail := func(key, format string, args ...any) {
-			c.Violationf("chain/"+key+"/"+c06ChainLabel(s.chain), "version %v chain %s\nbody: %s\n%s", v, c06ChainDesc(s.chain), c06Hex(s.body),
-				fmt.Sprintf(format, args...))
+			c.Violationf(fmt.Sprintf("chain/%s/len=%d,last=%s", key, len(s.chain), c06Label(s.chain[len(s.chain)-1])),
+				"version %v chain %s\nbody: %s\n%s", v, c06ChainDesc(s.chain), c06Hex(s.body), fmt.Sprintf(format, args...))
 		}
 		s.ref = w.Alloc()
 		dict := pdf.Dict{"Type": pdf.Name("VerifC06")}
@@ -1055,8 +1055,8 @@ func c06ChainDoc(c *kit.Case, rg *kit.Rand, v pdf.Version, human bool, streams [
 	defer r.Close()
 	for _, s := range streams {
 		fail := func(key, format string, args ...any) {
-			c.Violationf("chain/"+key+"/"+c06ChainLabel(s.chain), "version %v chain %s\nbody: %s\n%s", v, c06ChainDesc(s.chain), c06Hex(s.body),
-				fmt.Sprintf(format, args...))
+			c.Violationf(fmt.Sprintf("chain/%s/len=%d,last=%s", key, len(s.chain), c06Label(s.chain[len(s.chain)-1])),
+				"version %v chain %s\nbody: %s\n%s", v, c06ChainDesc(s.chain), c06Hex(s.body), fmt.Sprintf(format, args...))
 		}
 		obj, err := r.Get(s.ref, true)
 		if err != nil {
@@ -1106,7 +1106,7 @@ func c06ChainDoc(c *kit.Case, rg *kit.Rand, v pdf.Version, human bool, streams [
 			if fx, ok := last.(pdf.FilterCCITTFax); ok {
 				class = c06FaxClass(fx, c06SplitRows(s.body, c06RowBytes(fx)))
 			}
-			c.Violationf("chain/roundtrip/"+c06Label(last)+"/"+c06FailKey(last, class, s.body, got, err),
+			c.Violationf("chain/roundtrip/last="+c06Label(last)+"/"+c06FailKey(last, class, s.body, got, err),
 				"version %v chain %s\nbody: %s\nread size %d: err=%v\ngot:  %s", v, c06ChainDesc(s.chain), c06Hex(s.body), s.rsize, err, c06Hex(got))
 		}
 	}
@@ -1255,7 +1255,7 @@ func TestVerifC06(t *testing.T) {
 		src := c06FixedRandom
 		if c.Index%4 >= 2 {
 			src = c06FixedText[:] // long matches: far fewer codes per byte
-			l *= 14              // reaches the reset at about 60 000 bytes
+			l *= 14               // reaches the reset at about 60 000 bytes
 			if l > len(src) {
 				l = len(src)
 			}
@@ -1381,7 +1381,7 @@ func TestVerifC06(t *testing.T) {
 	})
 
 	// ---- 6. random cells, inputs and chunkings beyond the enumerated ones
-	r.Phase("random", r.N(40000, 1600000), func(c *kit.Case) {
+	r.Phase("random", r.N(40000, 6000000), func(c *kit.Case) {
 		rg := c.Rng
 		v := kit.Pick(rg, c06AllVersions)
 		var f pdf.Filter
@@ -1444,7 +1444,7 @@ func TestVerifC06(t *testing.T) {
 		}
 	})
 
-	r.Phase("ccitt-random", r.N(30000, 1200000), func(c *kit.Case) {
+	r.Phase("ccitt-random", r.N(30000, 4500000), func(c *kit.Case) {
 		rg := c.Rng
 		f := c06RandomFax(rg)
 		nrows := rg.Intn(8)
@@ -1471,7 +1471,7 @@ func TestVerifC06(t *testing.T) {
 		}
 	})
 
-	r.Phase("chains-random", r.N(6000, 250000), func(c *kit.Case) {
+	r.Phase("chains-random", r.N(6000, 900000), func(c *kit.Case) {
 		rg := c.Rng
 		v := kit.Pick(rg, c06AllVersions)
 		var streams []*c06Stream
